@@ -575,7 +575,120 @@ func c05MemoKeyRule(r *core.Run, o *core.O, funcs []*ssa.Function) {
 			}
 		}
 	}
+	// Part 2 (round 9, structRequiredCache): data dependence. Whatever parameter the memoised value is
+	// computed from must also be an input of the key - judged in the function itself and, for an
+	// unexported helper, once more at its in-package call sites (a plain put(key, value) helper passes).
+	type memoStore struct {
+		in       ssa.Instruction
+		key, val ssa.Value
+		name     string
+	}
+	for _, f := range funcs {
+		var stores []memoStore
+		for _, b := range f.Blocks {
+			for _, in := range b.Instrs {
+				switch x := in.(type) {
+				case *ssa.MapUpdate:
+					if ld, ok := core.Forward(x.Map).(*ssa.UnOp); ok {
+						if g, ok := ld.X.(*ssa.Global); ok && g.Pkg == f.Pkg {
+							stores = append(stores, memoStore{in, x.Key, x.Value, g.Name()})
+						}
+					}
+				case *ssa.Call:
+					switch core.CalleeName(x) {
+					case "(*sync.Map).Store", "(*sync.Map).LoadOrStore", "(*sync.Map).Swap":
+						if g, ok := x.Call.Args[0].(*ssa.Global); ok && g.Pkg == f.Pkg {
+							stores = append(stores, memoStore{in, x.Call.Args[1], x.Call.Args[2], g.Name()})
+						}
+					}
+				}
+			}
+		}
+		for _, ms := range stores {
+			n++
+			r.Fn(core.FuncName(f))
+			keySrc, valSrc := c05InputsOf(ms.key), c05InputsOf(ms.val)
+			for src := range valSrc {
+				if keySrc[src] {
+					continue
+				}
+				if why := c05MemoLift(funcs, f, src, keySrc); why != "" {
+					o.Fail(p.InstrPos(ms.in), "%s memoises in the package-level %s a value computed from %s under a key that does not depend on it (%s): the answer computed for the first caller is served to every later caller with another %s (the memo of implicitly required structs was keyed by the type alone although the tag key decides which members count)", core.FuncName(f), ms.name, core.Describe(src), why, core.Describe(src))
+				}
+			}
+		}
+	}
 	o.Site(n, mapPkg+": stores into package-level memo maps")
+}
+
+// c05InputsOf: the parameters and captured variables v is computed from (data dependence through
+// operands, φ-nodes, local memory and call arguments).
+func c05InputsOf(v ssa.Value) map[ssa.Value]bool {
+	out := map[ssa.Value]bool{}
+	core.DependsOn(v, func(x ssa.Value) bool {
+		switch x.(type) {
+		case *ssa.Parameter, *ssa.FreeVar:
+			out[x] = true
+		}
+		return false
+	})
+	return out
+}
+
+// c05MemoLift: src is an input of the memoised value in f that the key does not cover. For an
+// unexported function all of whose uses are in-package static calls the question is put once more at
+// the call sites: there the actual for src must be computed from inputs of the actuals of the key's
+// parameters, or be the same constant everywhere. Returns "" when covered, else where it is not.
+func c05MemoLift(funcs []*ssa.Function, f *ssa.Function, src ssa.Value, keySrc map[ssa.Value]bool) string {
+	pa, ok := src.(*ssa.Parameter)
+	if !ok || pa.Parent() != f || f.Parent() != nil || f.Pkg == nil || (f.Object() != nil && f.Object().Exported()) {
+		return "in " + core.FuncName(f)
+	}
+	sites, esc := callSitesOf(funcs, f)
+	if esc || len(sites) == 0 {
+		return "in " + core.FuncName(f)
+	}
+	idx := paramIndex(f, pa)
+	var consts []*ssa.Const
+	for _, cs := range sites {
+		args := cs.Common().Args
+		if idx < 0 || idx >= len(args) {
+			return "in " + core.FuncName(f)
+		}
+		actual := core.Forward(args[idx])
+		if c, isConst := core.Strip(actual).(*ssa.Const); isConst {
+			consts = append(consts, c)
+			continue
+		}
+		covered := map[ssa.Value]bool{}
+		for k := range keySrc {
+			if kp, isParam := k.(*ssa.Parameter); isParam && kp.Parent() == f {
+				if i := paramIndex(f, kp); i >= 0 && i < len(args) {
+					for s := range c05InputsOf(args[i]) {
+						covered[s] = true
+					}
+				}
+			}
+		}
+		in := c05InputsOf(actual)
+		if len(in) == 0 {
+			return "at the call in " + core.FuncName(cs.Parent()) + ", which passes " + core.Describe(actual)
+		}
+		for s := range in {
+			if !covered[s] {
+				return "at the call in " + core.FuncName(cs.Parent()) + ", which passes " + core.Describe(actual)
+			}
+		}
+	}
+	if len(consts) > 0 && len(consts) != len(sites) {
+		return "constant at some call sites only"
+	}
+	for _, c := range consts[min(1, len(consts)):] {
+		if !sameVal(c, consts[0]) {
+			return "different constants at different call sites"
+		}
+	}
+	return ""
 }
 
 // valueDependsOnBranch: between the branch on cond and the map update in, at least one arm assigns
